@@ -15,11 +15,12 @@
 package main
 
 import (
-	"os"
 	"bytes"
 	"context"
 	"fmt"
 	"io"
+	"os"
+	"strings"
 	"time"
 
 	"github.com/buildbarn/bb-storage/pkg/blobstore/buffer"
@@ -221,6 +222,65 @@ func heldReader(g lstore.Geometry, rotations int) func() {
 	}
 }
 
+// heldReaderRefresh: A was read before (so the integrity cache, when configured, serves it unvalidated) and
+// has aged into an old block; a reader then obtains it (the store refreshes it through a cloned buffer: one
+// clone is copied to a new block, the other is what the reader holds) and keeps it open across rotations.
+func heldReaderRefresh(g lstore.Geometry, rotations int) func() {
+	return func() {
+		u := universe(instOf(g))
+		e := open(g)
+		e.mustPut(u.A)
+		if d, err := e.s.Get(u.A.Digest); err != nil || !bytes.Equal(d, u.A.Content) {
+			vsched.HarnessFail("first read of A: %q, %v", d, err)
+		}
+		e.mustPut(u.C)
+		e.mustPut(u.F) // A's block is now old
+		if g.Persistent {
+			vsched.WaitQuiescent()
+		}
+		var wg vsync.WaitGroup
+		wg.Add(2)
+		vsched.GoNamed("reader", false, func() {
+			defer wg.Done()
+			r := e.s.BA.Get(context.Background(), u.A.Digest).ToChunkReader(0, 1)
+			var got []byte
+			for {
+				c, err := r.Read()
+				if err == io.EOF {
+					break
+				}
+				if err != nil {
+					vsched.Obs("reader err=%s", status.Code(err))
+					if !tolerated(err) {
+						failf("held-reader-error-"+status.Code(err).String(), "held reader failed: %v", err)
+					}
+					r.Close()
+					return
+				}
+				got = append(got, c...)
+				vsched.Yield("reader.hold")
+			}
+			r.Close()
+			vsched.Obs("reader got=%q", got)
+			if !bytes.Equal(got, u.A.Content) {
+				failf("pinned-data-overwritten", "a reader that obtained A (refreshed through a cloned buffer) before the rotations read %q, the object is %q: its block's region was reused while the reader was open\nregions: %s", got, u.A.Content, e.s.Alloc.Describe())
+			}
+		})
+		vsched.GoNamed("uploader", false, func() {
+			defer wg.Done()
+			for i, o := range []lstore.Obj{u.G, u.H, u.C, u.F}[:rotations] {
+				err := e.put(o, false)
+				vsched.Obs("put%d=%s", i, status.Code(err))
+				if err != nil && status.Code(err) != codes.Unavailable {
+					failf("upload-error-"+status.Code(err).String(), "upload failed: %v", err)
+				}
+			}
+		})
+		wg.Wait()
+		e.finish()
+	}
+}
+
 func instOf(g lstore.Geometry) string {
 	if g.Hierarchical {
 		return "a"
@@ -261,6 +321,21 @@ func refreshFaults(g lstore.Geometry, opName string, newBlockFaults, writeFaults
 			r := e.s.BA.Get(context.Background(), first.Digest).ToReader()
 			r.Read(make([]byte, 1))
 			r.Close()
+		case "GetTooSmall":
+			// the consumer's size limit is smaller than the object: the read fails before any data is read
+			_, err := e.s.BA.Get(context.Background(), first.Digest).ToByteSlice(1)
+			vsched.Obs("GetTooSmall=%s", status.Code(err))
+			if err == nil {
+				failf("size-limit-ignored", "ToByteSlice(1) of a %d byte object succeeded", len(first.Content))
+			}
+			// the same on an object that needs no refresh (the store hands out the block's buffer itself)
+			_, err = e.s.BA.Get(context.Background(), u.F.Digest).ToByteSlice(1)
+			vsched.Obs("GetTooSmallFresh=%s", status.Code(err))
+		case "GetCloneCopy":
+			b1, b2 := e.s.BA.Get(context.Background(), first.Digest).CloneCopy(1)
+			_, err1 := b1.ToByteSlice(100)
+			_, err2 := b2.ToByteSlice(100)
+			vsched.Obs("GetCloneCopy=%s,%s", status.Code(err1), status.Code(err2))
 		case "FindMissing":
 			_, err := e.s.FindMissing(first.Digest, u.B.Digest)
 			vsched.Obs("FM=%s", status.Code(err))
@@ -445,6 +520,34 @@ func rotations(g lstore.Geometry, n int) func() {
 	}
 }
 
+// rotationsDuringCommit: like rotations, but the uploads that pop committed blocks are issued while a commit
+// (data sync + state write of ProcessBlockPut) is in flight, so that the two syncer loops overlap: the
+// release loop extracts its state while the put loop is between extracting and acknowledging its own.
+func rotationsDuringCommit(g lstore.Geometry, n int) func() {
+	return func() {
+		e := open(g)
+		in := instOf(g)
+		for i := 0; i < n; i++ {
+			if i == 3 {
+				vsched.WaitQuiescent()
+			}
+			if i == 4 {
+				// upload 3 armed the put loop's timer; wait (virtual time passes) until its data sync has been issued
+				before := e.s.Media.Data.Syncs
+				vsched.Block("await-commit-in-flight", false, func() bool { return e.s.Media.Data.Syncs > before })
+			}
+			o := lstore.CASObj(fmt.Sprintf("R%d", i), in, []byte(fmt.Sprintf("rot%05d", i)))
+			err := e.put(o, false)
+			vsched.Obs("put%d=%s", i, status.Code(err))
+			if err != nil && status.Code(err) != codes.Unavailable {
+				failf("upload-error-"+status.Code(err).String(), "upload failed: %v", err)
+			}
+			monitors(e.s)
+		}
+		e.finish()
+	}
+}
+
 // longSeq: every sequence of block-sized uploads / reads / existence checks of the given depth with a NewBlock fault budget.
 func longSeq(g lstore.Geometry, depth, faults int) func() {
 	return func() {
@@ -452,16 +555,19 @@ func longSeq(g lstore.Geometry, depth, faults int) func() {
 		e := openD(g, false)
 		e.s.Alloc.FailNewBlock = faults
 		all := []lstore.Obj{u.A, u.C, u.F, u.G}
-		nops := 7
+		nops := 8
 		if g.Persistent {
-			nops = 8
+			nops = 9
 		}
 		for i := 0; i < depth; i++ {
 			k := vsched.ChooseFree("choice", nops)
 			switch {
-			case k == 7:
+			case k == 8:
 				n := e.s.StepSyncers(context.Background(), 1)
 				vsched.Obs("sync=%d", n)
+			case k == 7:
+				_, err := e.s.BA.Get(context.Background(), u.C.Digest).ToByteSlice(1)
+				vsched.Obs("GS=%s", status.Code(err))
 			case k < 4:
 				err := e.put(all[k], false)
 				vsched.Obs("P%d=%s", k, status.Code(err))
@@ -512,12 +618,32 @@ func main() {
 			add(fmt.Sprintf("held-reader/pers=%v-spare=%d", pers, spare), fmt.Sprintf("reader of A3 held open across %d block-sized uploads (rotations)", rot), g, bound, heldReader(g, rot))
 		}
 	}
+	for _, cache := range []bool{false, true} {
+		for _, hier := range []bool{false, true} {
+			g := base
+			g.Hierarchical, g.Spare = hier, 1
+			if hier {
+				g.New = 2
+			}
+			if cache {
+				g.RawReads, g.IntegrityCache = false, true
+			}
+			add(fmt.Sprintf("held-reader-refresh/hier=%v-cache=%v", hier, cache), "A read once, aged into an old block, then obtained again (refresh through a cloned buffer) and held open across 3 block-sized uploads; cache=true: validating CAS buffers behind the data integrity validation cache, so the second read is unvalidated", g, bound, heldReaderRefresh(g, 3))
+		}
+	}
 	fb := ev.Pick(r, 1, 2)
 	for _, hier := range []bool{false, true} {
 		for _, pers := range []bool{false, true} {
-			for _, opn := range []string{"Get", "GetDiscard", "GetReaderEarlyClose", "FindMissing", "GetFromComposite", "Put", "PutThenGet"} {
+			for _, opn := range []string{"Get", "GetDiscard", "GetReaderEarlyClose", "GetTooSmall", "GetCloneCopy", "FindMissing", "GetFromComposite", "Put", "PutThenGet", "validating:Get", "validating:GetDiscard", "validating:GetReaderEarlyClose", "validating:GetTooSmall", "validating:GetCloneCopy", "validating:GetFromComposite"} {
 				g := base
 				g.Hierarchical, g.Persistent = hier, pers
+				if strings.HasPrefix(opn, "validating:") {
+					// the checksum-validating CAS buffers (casReaderBuffer) instead of the raw read path
+					if pers {
+						continue
+					}
+					g.RawReads = false
+				}
 				if hier {
 					g.New = 2
 				}
@@ -526,7 +652,7 @@ func main() {
 				if pers {
 					df = fb
 				}
-				add(fmt.Sprintf("refresh-faults/hier=%v-pers=%v-%s", hier, pers, opn), fmt.Sprintf("object in an old block, then %s with up to %d allocation, %d device-write and %d state-write failures injected at every possible point, then two more rotations", opn, nbf, wf, df), g, ev.Pick(r, 2, 3), refreshFaults(g, opn, nbf, wf, df))
+				add(fmt.Sprintf("refresh-faults/hier=%v-pers=%v-%s", hier, pers, opn), fmt.Sprintf("object in an old block, then %s with up to %d allocation, %d device-write and %d state-write failures injected at every possible point, then two more rotations", opn, nbf, wf, df), g, ev.Pick(r, 2, 3), refreshFaults(g, strings.TrimPrefix(opn, "validating:"), nbf, wf, df))
 			}
 		}
 	}
@@ -557,7 +683,20 @@ func main() {
 		g.Persistent, g.Spare, g.DataGates = true, spare, false
 		add(fmt.Sprintf("rotations/spare=%d", spare), "3 block-sized uploads, commit, 5 more block-sized uploads in a row (PopFronts of committed blocks) || both syncer loops; every Release and NewBlock is checked against the last durably written state file", g, bound, rotations(g, 8))
 	}
+	for _, spare := range []int{2, 3} {
+		g := base
+		g.Persistent, g.Spare, g.DataGates = true, spare, false
+		add(fmt.Sprintf("rotations-during-commit/spare=%d", spare), "3 block-sized uploads, commit, 1 upload, then 3 more block-sized uploads (PopFronts of committed blocks) issued while the put loop's next commit is in flight || both syncer loops; every Release and NewBlock is checked against the last durably written state file", g, bound, rotationsDuringCommit(g, 7))
+	}
 	depth := ev.Pick(r, 5, 7)
+	for _, hier := range []bool{false, true} {
+		g := base
+		g.Hierarchical, g.DataGates, g.RawReads = hier, false, false
+		if hier {
+			g.New = 2
+		}
+		add(fmt.Sprintf("long-seq/hier=%v-validating", hier), fmt.Sprintf("every sequence of %d operations over {Put A3/C8/F8/G8, Get A, FindMissing, Get+CloneStream C, Get C with a too small size limit} on checksum-validating CAS buffers with <=1 injected allocation failure, exact free-region count at the end", depth), g, 1, longSeq(g, depth, 1))
+	}
 	for _, hier := range []bool{false, true} {
 		for _, pers := range []bool{false, true} {
 			g := base
@@ -565,7 +704,7 @@ func main() {
 			if hier {
 				g.New = 2
 			}
-			add(fmt.Sprintf("long-seq/hier=%v-pers=%v", hier, pers), fmt.Sprintf("every sequence of %d operations over {Put A3/C8/F8/G8, Get A, FindMissing, Get+CloneStream C} with <=1 injected allocation failure, exact free-region count at the end", depth), g, 1, longSeq(g, depth, 1))
+			add(fmt.Sprintf("long-seq/hier=%v-pers=%v", hier, pers), fmt.Sprintf("every sequence of %d operations over {Put A3/C8/F8/G8, Get A, FindMissing, Get+CloneStream C, Get C with a too small size limit} with <=1 injected allocation failure, exact free-region count at the end", depth), g, 1, longSeq(g, depth, 1))
 		}
 	}
 	mc.Run(r, scs)
